@@ -34,6 +34,8 @@ def monitor(c):
             for b in blocks[1:]:
                 if "zope/testrunner/__init__.py" in b and "run_internal" in b:
                     return ("the runner itself raised: %s" % b.strip().split("\n")[-1][:200], "C04:abort")
+    if getattr(c.obs, "exc", None):
+        return ("the in-process run was aborted: run_internal raised %s" % c.obs.exc[:200], "C04:abort")
     parent, children = cw.real_processes(c)
     vis = {i for i, l in enumerate(w["layers"]) if l["setUp"] and l["tearDown"]}
     for pname, evs in [("parent", parent)] + [("child %r" % (k,), v) for k, v in children.items()]:
@@ -81,6 +83,12 @@ def monitor(c):
             if lost:
                 return ("selected test(s) %r of layer %s never started in any process although every layer they need "
                         "could be set up" % (["t%d" % t for t in lost[:6]], worlds.layer_name(w, li)), "C04:test-lost")
+    # "recorded against that test", also in children: a layer subprocess that ran to its end delivered a report the
+    # parent could use
+    if "Could not communicate with subprocess" in out and not c.obs.timeout \
+            and not any(e.get("ev") == "die" for e in c.obs.events) and not getattr(c, "noisy", False):
+        return ("the parent could not use the report of a layer subprocess although no subprocess died: the outcomes "
+                "of that layer's tests are lost", "C04:report-lost")
     # a summary for every layer iteration that ran tests
     parsed = worlds.parse_output(out)
     nlayer_iters = 0
@@ -149,6 +157,65 @@ def gen_cases(ctx):
             o["xml"] = "xmlout"
         cases.append(cw.Case(w, o, "directed:noframes"))
     cases += leak_cases(ctx, 6 if ctx.quick() else 100)
+    cases += multi_event_cases(ctx, 6 if ctx.quick() else 100)
+    return cases
+
+
+def multi_event_cases(ctx, n):
+    """one test, several result events of the same kind (error in the body and in tearDown, two failing sub-tests, two
+    failing clean-ups), in a layer that runs in a subprocess"""
+    rng = ctx.rng
+    cases = []
+    for i in range(n):
+        w = worlds.gen_world(rng, n_layers=rng.choice([2, 3]), tests_per_layer=(1, 3), kinds=["pass", "pass", "fail"],
+                             p_fault=0.0, p_write=0.0)
+        for t in list(w["tests"]):
+            if rng.random() < 0.5:
+                kind = rng.choice(["bodyAndTearDown", "subFail2", "errCleanup"])
+                nt = worlds.gen_test(rng, t["id"], [5000 + 10 * t["id"]], kind=kind, p_write=0.0)
+                nt["layer"], nt["module"] = t["layer"], t["module"]
+                for k in ("doctest", "rebind", "ownstream"):
+                    nt.pop(k, None)
+                same = rng.choice(["fail", "error"])
+                if kind == "bodyAndTearDown":
+                    nt["body"]["exc"] = nt["tearDown"]["exc"] = same
+                elif kind == "subFail2":
+                    nt["subs"][0]["exc"] = nt["subs"][2]["exc"] = same
+                else:
+                    nt["cleanups"][0]["exc"] = nt["cleanups"][1]["exc"] = same
+                w["tests"][w["tests"].index(t)] = nt
+        o = {"verbose": rng.choice([0, 1, 2]), "buffer": rng.random() < 0.4, "processes": rng.choice([2, 3])}
+        cases.append(cw.Case(w, o, "directed:multi-event-in-children"))
+    return cases
+
+
+def in_process_cases(ctx, n):
+    """the runner embedded in a program that captures the output in an io.StringIO (run_internal under
+    contextlib.redirect_stdout): raising tests that wrote something, with --buffer on and off"""
+    rng = ctx.rng
+    cases = []
+    for i in range(n):
+        w = worlds.gen_world(rng, n_layers=rng.choice([1, 2, 3]), tests_per_layer=(1, 3), kinds=RAISING + ["pass"],
+                             p_fault=0.2, p_write=0.7, allow_notimpl=False)
+        for t in w["tests"]:
+            for k in ("doctest", "rebind", "ownstream", "label"):
+                t.pop(k, None)
+            for p_ in cw.parts_of(t):
+                p_.pop("rawbytes", None)
+                p_.pop("slow", None)
+                p_.pop("close", None)
+        for l in w["layers"]:
+            for k in ("slowSetUp", "slowTearDown"):
+                l.pop(k, None)
+        w.pop("sysPathObject", None)
+        o = {"verbose": rng.choice([0, 1, 2]), "buffer": rng.random() < 0.7, "processes": 1}
+        obs, err = cw.run_in_process(ctx, [(w, o)])
+        c = cw.Case(w, o, "directed:in-process-stringio")
+        if obs is None:
+            ctx.drift("runner.in-process", "worker failed: %s" % err, c.replay_obj())
+            continue
+        c.obs = obs[0]
+        cases.append(c)
     return cases
 
 
@@ -203,6 +270,11 @@ def run_cases(ctx, cases):
 
 def run(ctx):
     run_cases(ctx, cw.corpus_cases(PROP) + gen_cases(ctx))
+    ip = in_process_cases(ctx, 6 if ctx.quick() else 80)
+    for c in ip:
+        c.real_world = c.world
+        c.world = fix_sysexit_for_model(c)
+    cw.standard_check_after_real(ctx, ip, PROP, KINDS, "runner.contain", monitor)
 
 
 def replay(ctx, obj):
